@@ -80,9 +80,12 @@ MUTANTS = [
     ("addsub-adds-raw-magnitudes", "C03", "pint/facets/plain/quantity.py",
      "                magnitude = op(self._magnitude, other.to(self._units).magnitude)\n",
      "                magnitude = op(self._magnitude, other._magnitude)\n", r"_add_sub.*physical_value"),
-    ("addsub-skips-dimension-check", "C03", "pint/facets/plain/quantity.py",
-     "        if not self.dimensionality == other.dimensionality:\n            raise DimensionalityError(\n                self._units, other._units, self.dimensionality, other.dimensionality\n            )\n\n        # Next we define",
-     "        # Next we define", r"_add_sub.*(raises|DimensionalityError)"),
+    # (removing the explicit dimensionality test of _add_sub is an EQUIVALENT mutant for multiplicative quantities: every
+    #  branch that needs a conversion raises the same error -- it survives, correctly; the test is inverted instead)
+    ("addsub-inverted-dimension-check", "C03", "pint/facets/plain/quantity.py",
+     "        if not self.dimensionality == other.dimensionality:\n            raise DimensionalityError(\n                self._units, other._units, self.dimensionality",
+     "        if self.dimensionality == other.dimensionality:\n            raise DimensionalityError(\n                self._units, other._units, self.dimensionality",
+     r"_add_sub.*(raises|DimensionalityError)"),
     ("muldiv-units-of-self-only", "C03", "pint/facets/plain/quantity.py",
      "        units = units_op(new_self._units, other._units)\n\n        return self.__class__(magnitude, units)\n\n    def __imul__",
      "        units = new_self._units\n\n        return self.__class__(magnitude, units)\n\n    def __imul__", r"_mul_div.*(factor_of|dimensions|physical)"),
@@ -106,9 +109,14 @@ def run_mutant(m, keep=False, verbose=False):
             return mid, "STALE-MUTANT", ""
         open(path, "w").write(src.replace(old, new, 1))
         env = dict(os.environ, PV_REPO=tmp, PV_NO_EVIDENCE="1")
-        p = subprocess.run([os.path.join(VERIF, "check"), prop, "--no-standins", "-v"], capture_output=True, text=True,
-                           env=env, cwd=VERIF)
         import re
+
+        # verify only the mutated function when the expectation names one (a whole-property run walks the full solver
+        # portfolio for every failing obligation of every caller as well)
+        m_only = re.match(r"^\(?([A-Za-z_][A-Za-z0-9_.]*)", expect)
+        only = ["--only", m_only.group(1).rstrip(".")] if m_only and "|" not in expect.split(".*")[0] else []
+        p = subprocess.run([os.path.join(VERIF, "check"), prop, "--no-standins", "-v"] + only, capture_output=True, text=True,
+                           env=env, cwd=VERIF)
 
         failing = [ln.split()[-1] for ln in p.stdout.splitlines() if ln.strip().startswith(("failed", "unknown"))
                    and "cover." not in ln]
